@@ -18,7 +18,7 @@ from concurrent.futures import ThreadPoolExecutor
 import vlib
 import layer_t
 
-PINS = ["C18_count_roundtrip"]
+PINS = ["C18_count_roundtrip", "C18_count_interface", "C18_minrc_interface"]
 
 
 def configurations():
@@ -136,6 +136,8 @@ def run(prop, tier, seed):
             f.write("# replay: build harness with features of that configuration and run the case below through timers_drv / the runtime interpreter\n")
             if ops:
                 f.write(layer_t.case_text(cname, ops[:j + 1]))
+            elif len(diffs[0]) > 5 and diffs[0][5]:
+                f.write("# runtime-layer program (harness/r format):\n" + str(diffs[0][5]) + "\n")
         vlib.violation(prop, path)
         ev.violations = len(diffs)
         rc = 1
